@@ -617,8 +617,16 @@ class Connection(ExportImport):
                     assert serial is not None  # See _uncommitted
                     self._modified.pop()  # not modified
                     continue
-                s = self._storage.storeBlob(oid, serial, p, blobfilename,
-                                            '', transaction)
+                try:
+                    s = self._storage.storeBlob(oid, serial, p, blobfilename,
+                                                '', transaction)
+                except:  # noqa: E722 do not use bare 'except'
+                    # The blob has handed us its uncommitted file, and the
+                    # storage did not take it (a conflict is detected
+                    # first): nobody else will remove it.
+                    if os.path.exists(blobfilename):
+                        os.remove(blobfilename)
+                    raise
                 # we invalidate the object here in order to ensure
                 # that that the next attribute access of its name
                 # unghostify it, which will cause its blob data
